@@ -2,6 +2,6 @@
 Require Extraction.
 Require Import ExtrOcamlBasic.
 From LLB Require Import Base.Bytes Path.PathPrefix Codec.Codec Codec.FileObs.
-Extraction "extracted/Model.ml" pip pip_unrepaired to_delete stale_history
+Extraction "extracted/Model_base.ml" pip pip_unrepaired to_delete stale_history
   enc_value dec_value enc_key dec_key has_sig has_info has_strs
   observe info_eqb info_eqb_unrepaired is_missing.
